@@ -355,6 +355,64 @@ fn scenario_strings(which: usize) -> (u64, Vec<V>) {
     (c.steps, c.out)
 }
 
+/// Two limits at once: the pool is full (65535 entries) and one string has
+/// 65534 references; further references to it need a second entry.
+fn scenario_strings_and_refs(which: usize) -> (u64, Vec<V>) {
+    let names = ["strings+refs/batch-crossing-the-reference-limit", "strings+refs/one-by-one"];
+    let col = |n: &str, ty: Ty, key: bool| enc::EncCol { spec: if key { ColSpec::new(n, ty).key() } else { ColSpec::new(n, ty).nullable() }, width1_quirk: false };
+    let mk_db = |filler: usize| -> enc::EncDb {
+        enc::EncDb {
+            ptype: 0,
+            codepage_id: 65001,
+            long_refs: false,
+            pool_style: enc::PoolStyle::Dense,
+            with_validation: true,
+            row_order: enc::RowOrder::Ascending,
+            tables: vec![
+                enc::EncTable { name: "F".into(), cols: vec![col("K", Ty::I32, true), col("V", Ty::Str(0), false)], rows: (0..filler).map(|i| vec![Val::Int(i as i32 + 1), Val::Str(format!("f{:05}", i))]).collect() },
+                enc::EncTable { name: "X".into(), cols: vec![col("K", Ty::I32, true), col("A", Ty::Str(0), false), col("B", Ty::Str(0), false)], rows: (1..=32767).map(|i| vec![Val::Int(i), Val::s("same"), Val::s("same")]).collect() },
+            ],
+            streams: vec![],
+            summary: enc::default_summary(),
+            extra_pool_strings: vec![],
+        }
+    };
+    let p0 = dec::decode(&enc::encode(&mk_db(0))).expect("decode").pool.len();
+    let filler = 65535 - p0;
+    let bytes = enc::encode(&mk_db(filler));
+    let d = dec::decode(&bytes).expect("decode preload");
+    assert_eq!(d.pool.len(), 65535, "preload arithmetic");
+    let mut c = Ctx::new(names[which], "X");
+    c.h = match Harness::open(bytes) {
+        Ok(h) => h,
+        Err(e) => return (0, vec![("strings+refs:preloaded-database-refused".into(), e)]),
+    };
+    c.rows = (1..=32767).map(|i| vec![Val::Int(i), Val::s("same"), Val::s("same")]).collect();
+    let add = |rows: Vec<Vec<Val>>| move |m: &mut Vec<Vec<Val>>| m.extend(rows);
+    match which {
+        0 => {
+            // one row with two cells: the second reference needs a new entry
+            let r = vec![vec![Val::Int(40000), Val::s("same"), Val::s("same")]];
+            c.step(&ins("X", r.clone()), false, add(r));
+            c.save_and_reopen(true);
+        }
+        _ => {
+            let r = vec![vec![Val::Int(40000), Val::s("same"), Val::Null]];
+            c.step(&ins("X", r.clone()), true, add(r)); // 65535th reference
+            let r = vec![vec![Val::Int(40001), Val::s("same"), Val::Null]];
+            c.step(&ins("X", r.clone()), false, add(r)); // needs a second entry: pool is full
+            c.save_and_reopen(true);
+            // releasing references makes room again
+            let del = Op::Delete { table: "X".into(), cond: Some(E::bin(Bin::Le, E::col("K"), E::int(2))) };
+            c.step(&del, true, |m| m.retain(|r| !matches!(r[0], Val::Int(k) if k <= 2)));
+            let r = vec![vec![Val::Int(40002), Val::s("same"), Val::s("same")]];
+            c.step(&ins("X", r.clone()), true, add(r));
+            c.save_and_reopen(true);
+        }
+    }
+    (c.steps, c.out)
+}
+
 /// References to one string: 65534, 65535, 65536 cells holding the same text.
 fn scenario_refs(which: usize) -> (u64, Vec<V>) {
     let names = ["refs/L-1", "refs/L", "refs/L+1", "refs/incremental-and-release"];
@@ -510,6 +568,9 @@ pub fn run(tier: Tier) -> i32 {
     }
     for w in 0..4 {
         jobs.push(Box::new(move || scenario_refs(w)));
+    }
+    for w in 0..2 {
+        jobs.push(Box::new(move || scenario_strings_and_refs(w)));
     }
     for n in [1usize, 31, 32, 33, 34, 64] {
         jobs.push(Box::new(move || scenario_columns(n)));
